@@ -246,14 +246,36 @@ def run_cases(prop: Any, rec: Recorder, rng: Any, n: int, deadline: float) -> No
         run_one(prop, rec, case)
 
 
+class CaseTimeout(Exception):
+    """Wall-clock watchdog of one case fired (inconclusive, never a verdict)."""
+
+
+CASE_WATCHDOG_S = 120
+
+
+def _alarm(signum: int, frame: Any) -> None:
+    raise CaseTimeout(f"{CASE_WATCHDOG_S} s")
+
+
 def run_one(prop: Any, rec: Recorder, case: Any) -> None:
+    import signal
+
+    from .vloop import Livelock
+
     rec.begin(case)
+    signal.signal(signal.SIGALRM, _alarm)
+    signal.alarm(CASE_WATCHDOG_S)
     try:
         prop.check(case, rec)
+    except Livelock as e:
+        # logical-step verdict: the code under observation spins at one virtual instant
+        rec.violation("livelock-in-observed-code", {"detail": str(e)})
     except HarnessError as e:
         rec.harness_problem(f"HarnessError: {e}")
     except AttributedError as e:
         rec.violation("exception-escaped", {"where": e.where, **exc_info(e.exc)})
+    except CaseTimeout as e:
+        rec.harness_problem(f"case exceeded its wall-clock watchdog: {e}")
     except Exception as e:  # harness bug, or an exception escaping the repo's code
         if raised_in_repo(e):
             # DESIGN 2.5: an undocumented exception escaping the observed code on an
@@ -262,6 +284,8 @@ def run_one(prop: Any, rec: Recorder, case: Any) -> None:
         else:
             tb = traceback.format_exc()
             rec.harness_problem(f"unattributed {type(e).__name__}: {e} :: {tb[-1500:]}")
+    finally:
+        signal.alarm(0)
     rec.end()
 
 
